@@ -128,8 +128,13 @@ fn role_of(sel: u8) -> Role {
     }
 }
 
-fn scenario_strategy(transitions: bool) -> impl Strategy<Value = Scenario> {
-    (roles_strategy(transitions), prop::collection::vec((any::<u8>(), any::<u8>()), 0..40)).prop_map(move |(roles, raw)| {
+pub fn scenario_strategy(transitions: bool) -> impl Strategy<Value = Scenario> {
+    (roles_strategy(transitions), prop::collection::vec((any::<u8>(), any::<u8>()), 0..40)).prop_map(move |(roles, raw)| build(transitions, &roles, &raw))
+}
+
+/// Build the scenario from raw generated values (shared with the `srv_sim` fuzz decoder).
+pub fn build(transitions: bool, roles: &[(u8, Vec<u8>)], raw: &[(u8, u8)]) -> Scenario {
+    {
         let conns: Vec<ConnScript> = roles.iter().enumerate().map(|(c, (sel, sizes))| script(c, role_of(*sel), sizes)).collect();
         let n = conns.len();
         let mut steps = Vec::new();
@@ -140,7 +145,7 @@ fn scenario_strategy(transitions: bool) -> impl Strategy<Value = Scenario> {
             }
             steps.push(Step::Poll);
         }
-        for &(sel, cs) in &raw {
+        for &(sel, cs) in raw {
             let c = cs as usize % n;
             match sel % 12 {
                 0 => steps.push(Step::Arrive(c)),
@@ -161,7 +166,7 @@ fn scenario_strategy(transitions: bool) -> impl Strategy<Value = Scenario> {
             }
         }
         Scenario { conns, steps }
-    })
+    }
 }
 
 /// Strict monitor. Returns a description of the violation, if any.
@@ -253,7 +258,7 @@ fn transition_monitor(sc: &Scenario, trace: &Trace) -> Result<(), Fail> {
     Ok(())
 }
 
-fn check(sc: &Scenario, stats: &mut Stats, transitions: bool) -> CaseResult {
+pub fn check(sc: &Scenario, stats: &mut Stats, transitions: bool) -> CaseResult {
     stats.sample(|| sample_of(sc));
     let trace = run_scenario(sc);
     judge_trace(sc, &trace)?;
@@ -376,6 +381,12 @@ pub fn run(ctx: &Ctx) -> i32 {
     });
     stats.merge(s3);
     viol.extend(v3);
+    crate::fuzzrun::golden("srv_sim", &mut stats, &mut viol);
+    if ctx.tier == vcommon::ev::Tier::Thorough {
+        std::env::set_var("VERIF_SRV_LANES", "5,6");
+        let seeds: Vec<Vec<u8>> = { let mut v = Vec::new(); for l in [5u8, 6] { for i in 0..24u8 { let mut s = vec![l as u8]; s.extend((0..(16 + i as usize * 9)).map(|k| (k as u8).wrapping_mul(37).wrapping_add(i.wrapping_mul(11)))); v.push(s); } } v };
+        crate::fuzzrun::campaign(ctx, "srv_sim", crate::fuzzrun::fuzz_secs(180), &seeds, &mut stats, &mut viol);
+    }
     Report::new(RULE)
         .assume("a call is 'waiting' from the moment its last byte was delivered to the simulated transport; deliveries end at frame boundaries; all queued arrivals are accepted at the start of a server run (accept has priority), so the connection set is unchanged within a run in the strict lane")
         .assume("transition lane: a call queued behind its own connection's open stream becomes eligible when the server has seen the stream end; the transition count is over-approximated by all arrivals, closures and stream starts/ends of the scenario, which only loosens the bound")
@@ -384,6 +395,9 @@ pub fn run(ctx: &Ctx) -> i32 {
 }
 
 pub fn replay(lane: &str, case: serde_json::Value) -> CaseResult {
+    if lane == "fuzz" {
+        return crate::fuzzrun::replay(&case);
+    }
     let sc: Scenario = serde_json::from_value(case).map_err(|e| Fail::new("bad-replay", e.to_string()))?;
     println!("{}", serde_json::to_string_pretty(&sample_of(&sc)).unwrap());
     let trace = run_scenario(&sc);
